@@ -13,6 +13,8 @@ def key_fn(case, obs, verdict):
         what = ("samples-%s" % own.replace("=", "-")) if own != want_own else "sample-fields"
         if "net code" in verdict or "saw no error" in verdict:
             what = "net-code"
+        if " late=" in obs and " late=0" not in obs:
+            what = "written-after-report"
         return "shoot:%s-gun:%s:%s" % ({"h": "http", "c": "connect"}.get(f[1], f[1]), f[2], what)
     if f[0] == "cfggun":
         return "configured-gun:%s:auto-tag-%s:sample-fields" % (f[1], f[2])
@@ -25,6 +27,8 @@ def key_fn(case, obs, verdict):
         n_want = verdict.replace("BAD:expected ", "").split(" ")[0]
         kinds = ",".join(sorted({st.split(":")[-1].rstrip("0123456789") for st in f[2].split(",")})) if len(f) > 2 else ""
         what = ("count-%s-want-%s" % (n_obs, n_want)) if n_obs != n_want else "sample-fields"
+        if " late=" in obs and not obs.endswith(" late=0"):
+            what = "written-after-report"
         return "%s:%s:%s" % (f[0], kinds, what)
     return "%s:%s" % (f[0], verdict.split(" ")[0])
 
